@@ -43,7 +43,7 @@ def gen_set(rng, tag, grid, nlang, excl, zero_frame=False):
         caps = []
         for ci, (a, b) in enumerate(clean):
             nodes, _ = capsets.text_nodes(rng, f'{tag}.{li}.{ci}', nlines=rng.randrange(1, 4), p_meta=0.3,
-                                          p_uni=0.15, exclude=excl)
+                                          p_uni=0.15, exclude=excl, empty_lines=rng.choice([0.0, 0.0, 0.3]))
             caps.append({'start': a, 'end': b, 'nodes': nodes, 'style': None, 'layout': None})
         spec['langs'].append({'lang': lang, 'layout': None, 'captions': caps})
     return spec
